@@ -80,6 +80,9 @@ fn main() {
     i += 1;
   }
   silence_panics();
+  // stall limit: TVH_STALL seconds without a single event (default 180 quick / 600 thorough)
+  let stall = std::env::var("TVH_STALL").ok().and_then(|x| x.parse().ok()).unwrap_or(if ctx.quick() { 180 } else { 600 });
+  watchdog(stall);
   let n = match prop.as_str() {
     "C01" => c01::run(&ctx),
     "C02" => c02::run(&ctx),
